@@ -103,6 +103,8 @@ class Engine:
         self._fresh = 0
         self.trail = []              # short textual trace of decisions
         self.cfg = None
+        self.float_log = []
+        self._floors = {}
         self.hash_log = []
         self.hash_recording = False
         self.round_log = []
@@ -130,6 +132,23 @@ class Engine:
 
     def stub(self, name):
         self.stub_calls[name] = self.stub_calls.get(name, 0) + 1
+
+    def floor_var(self, z):
+        """integer variable f with f <= z < f + 1 (definitional floor, no to_int / is_int terms), memoised"""
+        key = z.get_id()
+        f = self._floors.get(key)
+        if f is None:
+            f = self.fresh('int', 'floor')
+            self._add(z3.And(z3.ToReal(f) <= z, z < z3.ToReal(f) + 1))
+            self._floors[key] = f
+        return f
+
+    def is_int_z(self, z):
+        """formula 'real term z is an integer' through the definitional floor"""
+        zs = z3.simplify(z)
+        if z3.is_rational_value(zs):
+            return z3.BoolVal(zs.denominator_as_long() == 1)
+        return zs == z3.ToReal(self.floor_var(zs))
 
     def fresh_bool(self, prefix='b'):
         self._fresh += 1
@@ -678,6 +697,33 @@ class Engine:
         if r == 'sat':
             return m
         return None
+
+    def concretise_float(self, z):
+        """pin the real term z to one value of the current path and return it as float (see SymRat.__float__)"""
+        grid = [z3.IsInt(var * (10 ** 30)) for (kind, var, flav) in self.inputs.values() if kind == 'rat']
+        tries = []
+        for prev in reversed(self.float_log[-2:]):
+            p = q_val(prev)
+            delta = q_val(abs(prev) * Fraction(1, 10 ** 20) + Fraction(1, 10 ** 28))
+            tries.append(grid + [z != p, z - p <= delta, p - z <= delta])
+        tries.append(grid + [z == q_val(Fraction(3000000000000000000007, 10 ** 22))])
+        tries.append(grid + [z != 0])
+        tries.append([])
+        val = None
+        for cons in tries:
+            r, m = self._query(cons, min(self.feas_ms, 1500))
+            if r == 'sat':
+                v = z3_to_py(m.eval(z, model_completion=True))
+                if v is not None:
+                    val = Fraction(v)
+                    break
+        if val is None:
+            raise ConcretisationLeak('float() of a symbolic value: no model')
+        self._add(z == q_val(val))
+        self.model = None
+        self.float_log.append(val)
+        self.notes.append('concretised-by-float')
+        return float(val)
 
     def probe_models(self, limit=10):
         """input assignments for concrete probing after a concretisation leak: a model of the path
